@@ -41,6 +41,7 @@ func cmdRecord(args []string) int {
 	n := fs.Int("n", 20, "number of trials")
 	repo := fs.String("repo", "/repo", "repository (for the sample models)")
 	fs.StringVar(&opsFilter, "ops", "", "family ops: comma-separated operator names (default: all)")
+	fs.StringVar(&concMode, "mode", "broad", "family conc: broad (all models, few Runs per goroutine) | hot (generated models only, many short Runs on 8 goroutines)")
 	_ = fs.Parse(args[1:])
 	f, err := os.Create(*out)
 	if err != nil {
@@ -67,6 +68,8 @@ func cmdRecord(args []string) int {
 	fmt.Printf("RECORDED %d events\n", rec.n)
 	return rc
 }
+
+var concMode = "broad"
 
 var recorders = map[string]func(*recorder, *rand.Rand, int, string) int{}
 
@@ -405,7 +408,9 @@ func recordConc(rec *recorder, rng *rand.Rand, trials int, repo string) int {
 		models = append(models, namedModel{name, b})
 	}
 	// generated models covering the operator families that read weights or decode tensors while running
+	synthetic := map[string]bool{}
 	for _, sm := range synthModels(rng) {
+		synthetic[sm.name] = true
 		b, err := buildModel(sm.m)
 		if err != nil {
 			fmt.Fprintln(os.Stderr, "record conc: synthetic model", sm.name, err)
@@ -415,6 +420,10 @@ func recordConc(rec *recorder, rng *rand.Rand, trials int, repo string) int {
 	}
 	for _, nm := range models {
 		name, modelBytes := nm.name, nm.bytes
+		if concMode == "hot" && !synthetic[name] {
+			continue
+		}
+
 		m, err := gonnx.NewModelFromBytes(modelBytes)
 		if err != nil {
 			fmt.Fprintln(os.Stderr, "record conc:", name, err)
@@ -452,6 +461,9 @@ func recordConc(rec *recorder, rng *rand.Rand, trials int, repo string) int {
 			if trials < 10 && G > 4 {
 				continue
 			}
+			if concMode == "hot" && G != 8 {
+				continue
+			}
 			var wg sync.WaitGroup
 			stop := make(chan struct{})
 			// loading further models concurrently must not disturb the Runs
@@ -477,7 +489,11 @@ func recordConc(rec *recorder, rng *rand.Rand, trials int, repo string) int {
 				go func(gi int, seed int64) {
 					defer rw.Done()
 					lr := rand.New(rand.NewSource(seed))
-					for seq := 1; seq <= 1+trials/4; seq++ {
+					runs := 1 + trials/4
+					if concMode == "hot" {
+						runs = 10 * trials // small generated models: many short Runs, so that node executions really overlap
+					}
+					for seq := 1; seq <= runs; seq++ {
 						k := lr.Intn(nKeys)
 						// every goroutine builds its own input tensors
 						var out gonnx.Tensors
